@@ -188,6 +188,10 @@ func injectSSOFault(r *rand.Rand, rec *sim.Response, now time.Time, f string) st
 				cf.NotOnOrAfter = sim.S(pick(r, []string{"tomorrow", now.Add(time.Hour).Format("2006-01-02"), now.Add(time.Hour).Format("2006-01-02T15:04:05"), "9999"}))
 			case "nooa-past":
 				cf.NotOnOrAfter = sim.S(sim.TS(now.Add(-time.Duration(r.IntN(3600)) * time.Second)))
+				if ns := now.Nanosecond(); ns > 0 && r.IntN(2) == 0 {
+					// reached within the SP clock's current second (at the clock reading itself when the draw is 0)
+					cf.NotOnOrAfter = sim.S(now.Add(-time.Duration(r.IntN(ns))).UTC().Format(time.RFC3339Nano))
+				}
 			}
 		}
 	}
@@ -212,6 +216,10 @@ func runC03(c *mon.Ctx) {
 		}
 		nf := []int{0, 1, 1, 1, 2, 3}[r.IntN(6)]
 		var faults []string
+		now := now
+		if r.IntN(2) == 0 {
+			now = now.Add(time.Duration(1 + r.IntN(999_999_999))) // the SP clock is not on a whole second
+		}
 		for i := 0; i < nf; i++ {
 			faults = append(faults, injectSSOFault(r, rec, now, c03Faults[(k+i*7)%len(c03Faults)]))
 		}
